@@ -10,6 +10,7 @@ import json
 import shutil
 import subprocess
 
+os.environ['VERIF_EVIDENCE_DIR'] = '/tmp/pp-evidence-scratch'
 VERIF = os.path.dirname(os.path.dirname(os.path.abspath(__file__)))
 SCRATCH = '/tmp/pp-scratch'
 
